@@ -1,7 +1,9 @@
 (* C19 - Signatures split into complete types; inferred variant types always encode.
-   Statements only; proofs in Proofs/SigProofs.v, InferProofs.v, MarshalProofs.v, UnmarshalProofs.v. *)
+   Statements only; proofs in Proofs/SigProofs.v, InferProofs.v, MarshalProofs.v, UnmarshalProofs.v,
+   HomogeneousProofs.v. *)
 From Tx Require Import Lib.Base Gen.Generated Model.PyVal Model.Marshal Spec.WireSpec Spec.Readback
-  Spec.Conforms Spec.WireTyped Proofs.SigProofs Proofs.InferProofs Proofs.MarshalProofs Proofs.UnmarshalProofs.
+  Spec.Conforms Spec.WireTyped Spec.Homogeneous Proofs.SigProofs Proofs.InferProofs Proofs.MarshalProofs
+  Proofs.UnmarshalProofs Proofs.HomogeneousProofs.
 Local Open Scope N_scope.
 
 (* Splitting any signature derivable from the type grammar - any list of types,
@@ -40,10 +42,9 @@ Proof. split; [reflexivity|vm_compute; reflexivity]. Qed.
    (conf: each container's elements conform to one DBus type, or travel as
    nested variants), it encodes as a variant under the inferred signature and
    decodes back to its read-back.
-   PARTIAL: what is not proved in Coq is that every value inside the claim
-   (elements sharing one DBus type or differing in Python class) has such a
-   denotation; that direction is covered by the value-first correspondence run
-   (harness/c19.py: reference inference + encode/decode equality oracle). *)
+   PARTIAL on its own (kept as the lemma the full theorem below rests on): it
+   does not say that every value inside the claim has such a denotation, nor
+   that the read-back equals the value; C19_variant_roundtrip adds both. *)
 Theorem C19_variant_roundtrip_partial :
   forall v t w pre post le fds fuel,
     sig_from_py v = Ok (show t) -> (length (show t) <= 255)%nat ->
@@ -54,16 +55,40 @@ Theorem C19_variant_roundtrip_partial :
       m_marshal fuel [118] (PList [v]) (len pre) le fds = Ok (n, b, fds) /\ n = len b /\
       m_unmarshal fuel [118] (pre ++ b ++ post) (len pre) le (Some [])
         = Ok (n, [readback [] t w]).
-Proof.
-  intros v t w pre post le fds fuel Hs Hl Hc Hw Hd Hsz.
-  exists (len (enc_seq [TVariant] [WVariant t w] (length pre) le)), (enc_seq [TVariant] [WVariant t w] (length pre) le).
-  split.
-  { apply (marshal_refines [TVariant] (PList [v]) [v] [WVariant t w] (length pre) le fds fuel eq_refl);
-      [cbn; auto|unfold wdepth_list; cbn [fold_right wdepth]; lia|exact Hsz]. }
-  split; [reflexivity|].
-  apply (unmarshal_inverts [] le [TVariant] [WVariant t w] pre post fuel);
-    [cbn; auto|unfold wdepth_list; cbn [fold_right wdepth]; lia|exact Hsz].
-Qed.
+Proof. exact variant_roundtrip_typed. Qed.
+
+(* The claim in full.  [inside_claim] (Spec/Homogeneous.v) is the property's
+   precondition written out: in every container the elements all share one
+   DBus type, or differ in Python type and so travel as nested variants (or,
+   in a list, as their common base type int / str); scalars fit the type they
+   infer; dict keys are of one basic type and pairwise distinct; every
+   signature a variant carries has at most 255 characters.
+   Every such value v has a typed denotation (t, w) under its inferred
+   signature; for any surrounding bytes, byte order and start offset, with fuel
+   linear in the size of v and the encoding of v below the 4 GiB a length
+   field can express, marshalling [v] as a variant succeeds, reports the number
+   of bytes it produced, and unmarshalling those bytes consumes exactly them
+   and returns one value equal to v under Python equality ([py_eq]: modulo the
+   documented read-back normalisation tuple -> list, bytearray -> list of
+   ints, wrapper -> plain value; True == 1, 0.0 == -0.0). *)
+Theorem C19_variant_roundtrip :
+  forall v, inside_claim v ->
+  exists t w, sig_from_py v = Ok (show t) /\ conf t v w /\
+    forall pre post le fds fuel,
+      (2 * pv_size v + 1 <= fuel)%nat ->
+      len (enc_seq [TVariant] [WVariant t w] (length pre) le) < two32 ->
+      exists n b v',
+        m_marshal fuel [118] (PList [v]) (len pre) le fds = Ok (n, b, fds) /\ n = len b /\
+        m_unmarshal fuel [118] (pre ++ b ++ post) (len pre) le (Some []) = Ok (n, [v']) /\
+        py_eq v' v.
+Proof. exact variant_roundtrip_claim. Qed.
+
+(* its two halves, separately: the denotation exists and reads back equal *)
+Theorem C19_claim_denotes :
+  forall v, inside_claim v ->
+  exists t w, sig_from_py v = Ok (show t) /\ (length (show t) <= 255)%nat /\ conf t v w /\ wt [] t w /\
+              py_eq (readback [] t w) v /\ (wdepth w <= 2 * pv_size v)%nat.
+Proof. exact claim_denotes. Qed.
 
 Example C19_nonvacuous :
   gen_complete_types [105; 40; 105; 40; 105; 105; 41; 41; 97; 123; 115; 118; 125]
@@ -72,3 +97,53 @@ Example C19_nonvacuous :
     = Ok (show (TArray (TStruct [TInt32; TString]))) /\
   sig_from_py (PList [PInt 1; PStr [97]]) = Ok (show (TArray TVariant)).
 Proof. repeat split; reflexivity. Qed.
+
+(* Non-vacuity of the round trip: a nested heterogeneous value - a list of
+   mixed types (av) holding a list of variants, a dict whose values differ in
+   type (a{sv}), a wrapper, a bytearray, a list travelling as its base type
+   ([1, True] -> ai), a dict keyed by wrappers - is inside the claim, infers
+   "(ava{sv}yayaia{ys})", and the model round-trips it to an equal value. *)
+Definition ex_value : pyval :=
+  PTuple [PList [PInt 1; PStr [97]; PList [PBool true; PFloat 0]];
+          PDict [(PStr [107], PInt (-5)); (PStr [108], PTuple [PStr [120]; PInt 2])];
+          PWrap 121 (PInt 7);
+          PBytes [1; 255];
+          PList [PInt 1; PBool true];
+          PDict [(PWrap 121 (PInt 1), PStr [97]); (PWrap 121 (PInt 2), PStr [])]].
+
+Example C19_roundtrip_nonvacuous :
+  inside_claim ex_value /\
+  sig_from_py ex_value = Ok [40; 97; 118; 97; 123; 115; 118; 125; 121; 97; 121; 97; 105; 97; 123; 121; 115; 125; 41] /\
+  match m_marshal 40 [118] (PList [ex_value]) 3 false None with
+  | Ok (n, b, _) =>
+      n = len b /\
+      match m_unmarshal 40 [118] ([0; 0; 0] ++ b ++ [9]) 3 false (Some []) with
+      | Ok (m, [v']) =>
+          m = n /\ py_eq v' ex_value /\
+          v' = PList [PList [PInt 1; PStr [97]; PList [PBool true; PFloat 0]];
+                      PDict [(PStr [107], PInt (-5)); (PStr [108], PList [PStr [120]; PInt 2])];
+                      PInt 7;
+                      PList [PInt 1; PInt 255];
+                      PList [PInt 1; PInt 1];
+                      PDict [(PInt 1, PStr [97]); (PInt 2, PStr [])]]
+      | _ => False
+      end
+  | Err _ => False
+  end.
+Proof. vm_compute. repeat split; reflexivity. Qed.
+
+(* The hypothesis is needed: [[1], ['a']] - two elements of one Python class
+   (list) but of different DBus types - is outside the claim; the inference
+   (first element) gives "aai", and the model fails to encode it, whatever the
+   fuel. Likewise [1, UInt64(2**40)] ("ai", does not fit INT32). *)
+Example C19_outside_claim_fails :
+  let v := PList [PList [PInt 1]; PList [PStr [97]]] in
+  let v2 := PList [PInt 1; PWrap 116 (PInt 1099511627776)] in
+  inside_claim_b v = false /\ sig_from_py v = Ok [97; 97; 105] /\
+  inside_claim_b v2 = false /\ sig_from_py v2 = Ok [97; 105] /\
+  forall fuel le fds, is_ok (m_marshal fuel [118] (PList [v]) 0 le fds) = false /\
+                      is_ok (m_marshal fuel [118] (PList [v2]) 0 le fds) = false.
+Proof.
+  cbv zeta. repeat split; try reflexivity;
+    (destruct fuel as [|[|[|[|[|f]]]]]; [reflexivity..|destruct le; vm_compute; reflexivity]).
+Qed.
